@@ -9,6 +9,7 @@ CONSTANTS
   Cap = 2
   Buffered = TRUE
   Gaps = "overlap"
+  DropExit = FALSE
   KeepData = TRUE
   ExternalProg <- NoExternal
   Emit = FALSE
